@@ -605,3 +605,55 @@ func diag(sb *strings.Builder, n *Node, depth int) {
 		}
 	}
 }
+
+// LenientNormal returns a normal form that identifies encodings a lenient
+// decoder reads as the same value: shortest heads, sorted map keys, text and
+// byte strings identified, null and undefined identified, bstr wrappers
+// normalised recursively.
+func LenientNormal(n *Node) []byte {
+	c := Clone(n)
+	var norm func(n *Node)
+	norm = func(n *Node) {
+		n.HeadW, n.HasFakeLen, n.Indef = 0, false, false
+		if n.Kind == Text {
+			n.Kind = Bytes
+		}
+		if n.Kind == Bytes && n.Inner == nil && len(n.Bytes) > 0 {
+			if m := n.Bytes[0] >> 5; m == 4 || m == 5 || m == 6 {
+				if in, err := ParseAll(n.Bytes); err == nil {
+					n.Inner = in
+				}
+			}
+		}
+		if n.Kind == Simple && n.FloatW == 0 && n.Val == 23 {
+			n.Val = 22
+		}
+		// null, empty strings and empty containers all decode to the zero value
+		// of a slice/map/string typed field
+		if (n.Kind == Bytes && n.Inner == nil && len(n.Bytes) == 0) || ((n.Kind == Array || n.Kind == Map) && len(n.Items) == 0) {
+			*n = Node{Kind: Simple, Val: 22}
+		}
+		for _, it := range n.Items {
+			norm(it)
+		}
+		if n.Inner != nil {
+			norm(n.Inner)
+		}
+		if n.Kind == Map {
+			// a Go map decoder keeps the last of several entries with the same key
+			last := map[string]int{}
+			for i := 0; i+1 < len(n.Items); i += 2 {
+				last[string(Encode(n.Items[i]))] = i
+			}
+			var kept []*Node
+			for i := 0; i+1 < len(n.Items); i += 2 {
+				if last[string(Encode(n.Items[i]))] == i {
+					kept = append(kept, n.Items[i], n.Items[i+1])
+				}
+			}
+			n.Items = kept
+		}
+	}
+	norm(c)
+	return Encode(c)
+}
